@@ -451,6 +451,11 @@ class SpecEvalMixin:
                 v = self.unwrap(self._sp(env, n.args[0]))
                 attr = n.args[1].value
                 return VBool(self.hasattr_term(st, v, attr))
+            if name == "fresh":
+                v = self.unwrap(self._sp(env, n.args[0]))
+                if env.old_st is None:
+                    raise RuntimeError("fresh() outside a postcondition")
+                return VBool(And(Le(env.old_st.alloc, v.t), Lt(v.t, st.alloc)))
             if name == "is_none":
                 return VBool(self.is_none_term(self._sp(env, n.args[0])))
             if name == "some":
